@@ -163,6 +163,14 @@ pub fn only_channel(ch: Channel<Status>) {}
 pub fn no_args() -> Vec<Address> { todo!() }
 #[tauri::command]
 pub fn take_empty(e: Empty, s: Status) {}
+#[derive(Serialize, Deserialize)]
+pub struct JobQueued { pub id: u32 }
+#[derive(Serialize, Deserialize)]
+pub struct JobFinished { pub id: u32, pub ok: bool, pub stats: JobStats }
+#[derive(Serialize, Deserialize)]
+pub struct JobStats { pub millis: u64 }
+pub fn queue_job(app: tauri::AppHandle, j: JobQueued) { app.emit("job-status", j).ok(); }
+pub fn finish_job(app: tauri::AppHandle, j: JobFinished) { app.emit("job-status", j).ok(); }
 """
 
 
